@@ -232,6 +232,9 @@ func (s *FakeServer) List(ctx context.Context, opts metav1.ListOptions) (runtime
 		return &metav1.List{ListMeta: metav1.ListMeta{ResourceVersion: strconv.Itoa(rv)}, Items: []runtime.RawExtension{{Object: &metav1.Status{}}, {Raw: []byte("{}")}}}, nil
 	case "ctxerr":
 		return nil, context.Canceled
+	case "nometa":
+		// something with Items but without list metadata: not a list of API objects
+		return &noMetaList{Items: []corev1.Pod{*mkPod("a", rv, 0)}}, nil
 	}
 	pl := &corev1.PodList{ListMeta: metav1.ListMeta{ResourceVersion: strconv.Itoa(rv)}}
 	for _, o := range snap {
@@ -249,6 +252,13 @@ func (s *FakeServer) List(ctx context.Context, opts metav1.ListOptions) (runtime
 	}
 	return pl, nil
 }
+
+type noMetaList struct {
+	metav1.TypeMeta
+	Items []corev1.Pod
+}
+
+func (l *noMetaList) DeepCopyObject() runtime.Object { c := *l; return &c }
 
 // ---- client.WatchClient
 
@@ -423,6 +433,10 @@ func (w *fakeWatch) sendSpecial(kind string) bool {
 		return w.send(watch.Event{Type: watch.EventType("WEIRD"), Object: mkPod("a", 1, 0)}, desc)
 	case "nilobj":
 		return w.send(watch.Event{Type: watch.Modified, Object: nil}, desc)
+	case "error-nil":
+		return w.send(watch.Event{Type: watch.Error, Object: nil}, desc)
+	case "error-pod":
+		return w.send(watch.Event{Type: watch.Error, Object: mkPod("a", 1, 0)}, desc)
 	case "nonobj":
 		return w.send(watch.Event{Type: watch.Modified, Object: &metav1.List{}}, desc)
 	}
@@ -431,7 +445,7 @@ func (w *fakeWatch) sendSpecial(kind string) bool {
 
 func hasFatalInject(m map[int]string) bool {
 	for _, k := range m {
-		if k == "nilobj" || k == "nonobj" {
+		if k == "nilobj" || k == "nonobj" || k == "error-nil" {
 			return true
 		}
 	}
